@@ -104,6 +104,59 @@ def ns_map_of(nf):
     return None
 
 
+def nsmap_entries(a, CE):
+    """(entries | None, found): the `namespaces = {..}` map of a parsed attribute as [(key_nf, value_nf, star_or_None)].
+    Accepts the map written in the template itself (`{ "a" = "b", {} = {} }`), a single hole holding a joined list, or a bare
+    hole whose value is the whole `namespaces = {..}` text."""
+    nsv = a.get("namespaces")
+    if nsv is not None:
+        if nsv[0] == "hole":
+            return ns_map_of(CE.expand(nsv[1])), True
+        text = nsv[1]
+        holes = list(nsv[2]) if nsv[0] == "raw" else []
+        inner = text.strip()
+        if inner.startswith("{") and inner.endswith("}"):
+            inner = inner[1:-1].strip()
+        marks = re.findall(r"\x00(\d+)\x00", inner)
+        order = {m: i for i, m in enumerate(re.findall(r"\x00(\d+)\x00", text))}
+
+        def side(t):
+            t = t.strip()
+            mm = re.fullmatch(r'"?\x00(\d+)\x00"?', t)
+            if mm:
+                return holes[order[mm.group(1)]]
+            if "\x00" in t:
+                return None
+            return ("lit", t.strip('"'))
+        if len(marks) == 1 and re.fullmatch(r"\x00\d+\x00", inner):
+            return ns_map_of(CE.expand(holes[order[marks[0]]])), True
+        entries = []
+        for item in [x for x in inner.split(",") if x.strip()]:
+            if "=" not in item:
+                return None, True
+            k, v = item.split("=", 1)
+            k, v = side(k), side(v)
+            if k is None or v is None:
+                return None, True
+            entries.append((k, v, None))
+        return entries, True
+    for h in a.get("_holes", []):
+        if "namespaces" in og.nf_str(h):
+            return ns_map_of(CE.expand(h)), True
+    return None, False
+
+
+def attribute_flag(a, ev):
+    """True/False: the template carries `attribute = true` / does not; second value: the condition over self.is_attribute it sits
+    under (True / False / None when unconditional)."""
+    has = a.get("attribute") == ("lit", "true") or any("attribute = true" in og.nf_str(h) for h in a.get("_holes", []))
+    cond = None
+    for c in ev.ctx:
+        if c[0] == "alt" and og.nf_str(c[1]).endswith("is_attribute"):
+            cond = c[2]
+    return has, cond
+
+
 def same_namespace_source(k, v):
     """key = X.abbreviation and value = X.namespace for one X"""
     return k[0] == "field" and v[0] == "field" and k[2] == "abbreviation" and v[2] == "namespace" and k[1] == v[1]
@@ -152,11 +205,13 @@ def run(ck, F):
                 ck.violation("R1", "prefix", ev.site, f"field `prefix` is {og.nf_str(pf[1]) if pf and pf[0] == 'hole' else pf}, not the abbreviation of the field's own namespace")
         elif "prefix" in a:
             ck.violation("R1", "prefix-without-namespace", ev.site, "a prefix is emitted for a field without namespace")
-        hs = [og.nf_str(h) for h in a.get("_holes", [])]
-        if any("attribute = true" in h and "self.is_attribute" in h for h in hs):
-            ck.ok("R1", f"attribute-flag:{tag}", ev.site, "`attribute = true` is selected by self.is_attribute")
+        has, cond = attribute_flag(a, ev)
+        legacy = any("attribute = true" in og.nf_str(h) and "self.is_attribute" in og.nf_str(h) for h in a.get("_holes", []))
+        tagf = tag + ("" if cond is None else ":attr" if cond else ":elem")
+        if legacy or (cond is not None and has == cond):
+            ck.ok("R1", f"attribute-flag:{tagf}", ev.site, "`attribute = true` is selected by self.is_attribute")
         else:
-            ck.violation("R1", f"attribute-flag:{tag}", ev.site, f"the attribute flag is not selected by self.is_attribute ({hs})")
+            ck.violation("R1", f"attribute-flag:{tagf}", ev.site, f"the attribute flag is not selected by self.is_attribute (template has the flag: {has}, under is_attribute = {cond})")
     ck.floor("R1", "field attribute templates", n, 2)
     live = scans.api_reachable(F.lib)
     for (fn, site, ctx, fields, base) in og.field_summaries(F, "model::field::Field"):
@@ -197,19 +252,12 @@ def run(ck, F):
                 if a is None:
                     ck.undecided("R2", f"{gname}:attr", ev.site, "struct attribute template not parsable", fn=short)
                     continue
-                nsv = a.get("namespaces")
-                nshole = None
-                if nsv is not None:
-                    nshole = nsv[1] if nsv[0] == "hole" else (nsv[2][0] if nsv[0] == "raw" and nsv[2] else None)
-                for h in a.get("_holes", []):
-                    if "namespaces" in og.nf_str(h):
-                        nshole = h
-                if nshole is None:
+                entries, found = nsmap_entries(a, CE)
+                if not found:
                     ck.violation("R2", f"{gname}:namespaces", ev.site, f"struct `{gname}`: no namespaces map in its yaserde attribute", fn=short)
                     continue
-                entries = ns_map_of(CE.expand(nshole))
                 if entries is None:
-                    ck.undecided("R2", f"{gname}:namespaces-shape", ev.site, f"struct `{gname}`: namespaces value of unrecognised shape: {og.nf_str(nshole)[:120]}", fn=short)
+                    ck.undecided("R2", f"{gname}:namespaces-shape", ev.site, f"struct `{gname}`: namespaces value of unrecognised shape: {ev.skeleton().strip()[:120]}", fn=short)
                     continue
                 for (k, v, star) in entries:
                     if k[0] == "lit":
